@@ -36,9 +36,10 @@ let run_created line =
          let cfg_of_tcfg (t : tcfg) : ycfg = { yempty with y_os = t.output_stream; y_kc = t.keep_crlf; y_sk = t.skip_code } in
          let compat_cfg = (match gen_config_suffix (cfg_of_tcfg tc_default_cram) (cfg_of_tcfg tc_default_markdown) with
              | _ :: _ :: r -> (match List.rev r with _ :: m -> Some (List.rev m) | [] -> None) | _ -> None) in
-         let model = if cram then render_cram (gen_cram_doc md title cmd [] lines codeN)
-           else if compat then render_md (gen_md_docs md compat_cfg [{ g_title = title; g_cmd = cmd; g_conts = []; g_lines = lines; g_code = codeN }])
-           else render_md (gen_md_doc md title cmd [] lines codeN) in
+         (* the documents with the guards of the generator (a first line `> ..`, a Cram line `$ ..`, an escaped rendering ending in ` (no-eol)`) *)
+         let model = if cram then render_cram (gen_cram_doc_g md title cmd [] lines codeN)
+           else if compat then render_md (gen_md_docs_g md compat_cfg [{ g_title = title; g_cmd = cmd; g_conts = []; g_lines = lines; g_code = codeN }])
+           else render_md (gen_md_doc_g md None title cmd [] lines codeN) in
          if model <> dl then report "DIFF:generated-document" "the document `scrut create` wrote is not the rendering of the model's title and test block" line;
          let first_gt = (match lines with l :: _ -> starts_with_str l "> " | [] -> false) in
          let dollar = cram && List.exists (fun l -> starts_with_str l "$ ") lines in
@@ -83,7 +84,7 @@ let run_converted line =
              if outb <> raw then crlf_matters := true;
              { g_title = (match title with [] -> None | t -> Some t); g_cmd = cmd; g_conts = []; g_lines = split_lines_keep outb; g_code = n_of_int code }) ts in
          let cfg = (match suffix with _ :: _ :: r -> (match List.rev r with _ :: m -> Some (List.rev m) | [] -> None) | _ -> None) in
-         let model = if from_cram then render_md (gen_md_docs md cfg gtests) else render_cram (gen_cram_docs md gtests) in
+         let model = if from_cram then render_md (gen_md_docs_g md cfg gtests) else render_cram (gen_cram_docs_g md gtests) in
          if model <> dl then report "DIFF:generated-document" "the document `scrut update --convert` wrote is not the model's rendering of the tests in the other format" line;
          let first_gt = List.exists (fun (_, _, _, raw) -> match split_lines_keep raw with l :: _ -> starts_with_str l "> " | [] -> false) ts in
          let dollar = (not from_cram) && List.exists (fun (_, _, _, raw) -> List.exists (fun l -> starts_with_str l "$ ") (split_lines_keep raw)) ts in
@@ -119,7 +120,7 @@ let run () = iter_lines (fun line ->
        if upd = "0" && gen <> "-" then begin
          let doc = (match utf8_decode (bytes_of_hex gen) with Some t -> t | None -> []) in
          let dl = str_lines doc in
-         let want = List.map (fun l -> (if cram then [n_of_int 32; n_of_int 32] else []) @ expectation_line md l) lines in
+         let want = List.map (fun l -> (if cram then [n_of_int 32; n_of_int 32] else []) @ l) (guarded_lines true md lines) in
          let rec contains_seq hay need = match need with
            | [] -> true
            | _ -> (match hay with [] -> false | _ :: t ->
@@ -137,7 +138,7 @@ let run () = iter_lines (fun line ->
              | c :: r -> if int_of_n c = 10 then split [] (List.rev cur :: acc) r else split (c :: cur) acc r in split [] [] (bytes_of_hex expr_hex)) in
          let cmd, conts = (match expr_lines with c :: r -> (c, r) | [] -> ([], [])) in
          let title = given_title in
-         let model = render_cram (gen_cram_doc md title cmd conts lines (n_of_int (int_of_string code))) in
+         let model = render_cram (gen_cram_doc_g md title cmd conts lines (n_of_int (int_of_string code))) in
          if model <> dl then report "DIFF:generated-document" "the generated Cram document is not the rendering of the model's test block" line
        end;
        (* Markdown, create flavour: `# title`, blank, fenced scrut block (C09_markdown_test_reads_back) *)
@@ -149,7 +150,7 @@ let run () = iter_lines (fun line ->
              | c :: r -> if int_of_n c = 10 then split [] (List.rev cur :: acc) r else split (c :: cur) acc r in split [] [] (bytes_of_hex expr_hex)) in
          let cmd, conts = (match expr_lines with c :: r -> (c, r) | [] -> ([], [])) in
          let title = given_title in
-         let model = render_md (gen_md_doc md title cmd conts lines (n_of_int (int_of_string code))) in
+         let model = render_md (gen_md_doc_g md None title cmd conts lines (n_of_int (int_of_string code))) in
          if model <> dl then report "DIFF:generated-document" "the generated Markdown document is not the rendering of the model's title and test block" line
        end;
        (* known classes *)
